@@ -183,7 +183,11 @@ func (i *interpreter) ptrAddr(u uptr) uintptr {
 		return 0
 	}
 	if u.data == nil {
-		i.abort("unsafe: address of a typed cell is not modelled")
+		// a typed cell (&s[k] of a slice of strings, structs, ...): cells of one backing array are
+		// host-adjacent, 16 bytes apart; scaled to a stride of 64 so that range-overlap tests of the
+		// form  &a[0] <= &b[last] + (Sizeof(elem)-1)  (slices.Insert and friends) are exact for
+		// elements of up to 64 bytes: true iff the two ranges share a cell
+		return (uintptr(unsafe.Pointer(u.p)) >> 4) << 6
 	}
 	d := u.data
 	if d.isGo {
